@@ -832,3 +832,15 @@ public class Odd<T extends Comparable<T>> {
     interface Shape { default int area() { int k = 2 * 3; return k; } /* in interface */ }
 }
 """
+
+
+def optional_parts(n=6):
+    """Statements with and without their optional parts, side by side (a bare `return;` next to `return x;`, `for (;;)`
+    next to a full header, `assert c;` next to `assert c : "m";`, unlabelled next to labelled break/continue)."""
+    return ("class Optional {\n" + "".join(
+        "  int r%d(int total, boolean c) {\n    for (;;) { if (c) { return total; } break; }\n    for (int i = 0; i < total; i++) { total = total - 1; }\n"
+        "    assert c;\n    assert c : \"message %d\";\n    if (c) { return total; }\n    return total + %d;\n  }\n  void v%d(boolean c) {\n    if (c) { return; }\n    return;\n  }\n" % (j, j, j, j)
+        for j in range(n)) +
+        "  void w(boolean c) {\n    outer: while (c) { if (c) { continue; } if (c) { continue outer; } if (c) { break outer; } break; }\n"
+        "    do { c = !c; } while (c);\n    if (c) { c = false; } else { c = true; }\n    if (c) c = false;\n    { }\n    new Object();\n    new Object() { };\n  }\n"
+        "}\n")
